@@ -820,6 +820,6 @@ MANIFEST = dict(
         "unusable slots. Necessary conditions of 'model state must follow the surviving paths' and 'unusable slots "
         "carry -inf'; distinctness/order/score equality over search trajectories are not decided."),
     level_note="Trusted: python ast; torch gather/topk semantics; user language models are opaque.",
-    technique="static analysis: reaching definitions (def-use versions), index-space kind checking, literal sentinel tables, argument binding; evaluation of the initial score",
+    technique="static analysis: reaching definitions (def-use versions), index-space kind checking, literal sentinel tables, argument binding; evaluation of the initial score; BeamSearch.forward interpreted over exact values with a stateful language-model leaf on a grid of 216 searches (chained scores recomputed independently, exhaustive set, batch independence)",
     design_ref="DESIGN.md section 4 C04",
 )
